@@ -22,6 +22,14 @@ How the model represents the things the property talks about.
   `.vec id` with the same `id`. `Value` offers no way to copy a cell: copying a value (pairs are
   copied structurally, as the Rust deep-copies boxes) copies the *reference*.
 * Pairs have no identity (`eqv?` of two non-empty pairs is always `#f`): see `eqv_vector_identity`.
+
+Index. 1 `set_locality`; 2 `set_visibility`, `define_visibility`; 3 `applyScheme_alloc`,
+`frames_monotone_data`, `frames_monotone`, `fresh_frame_per_call`, `scoping_forms`;
+4 `vector_set_outcome`, `vector_set_one_cell`, `vector_ref_reads_cell`, `vec_alias`,
+`alias_transport`, `alloc_fresh`, `literal_vector_immutable`, `immutable_cells_never_change`,
+`cells_only_from_allocators`; 5 `store_wf_data`, `store_wf_invariant`; 6 `eqv_vector_identity`.
+All are proved at full strength (none needed weakening); `set_visibility`/`define_visibility`
+need no well-formedness hypothesis because `lookupAux`/`resolveAux` guard `p < ρ` themselves.
 -/
 import RuschmProofs.StoreLemmas
 
@@ -213,6 +221,33 @@ example : ∃ σ', Prim.applyPure Store.demo .vectorSet [.vec 0, .num (.int 1), 
     Prim.applyPure Store.demo .vectorSet [.vec 1, .num (.int 0), .nil] = (.error (.immutable, none), Store.demo) ∧
     Prim.applyPure Store.demo .vectorSet [.vec 0, .num (.int 2), .nil] = (.error (.vectorIndex, none), Store.demo) :=
   ⟨_, rfl, rfl, rfl, rfl, rfl, rfl, rfl⟩
+
+/-- Values travel unchanged: storing a value and reading it back — through a variable
+(`define` then `lookup`), a pair (`cons` then `car`/`cdr`), a procedure argument (`bindFixed` is
+`define`), or another vector (`vector` then `vector-ref`) — yields the very same value. For a
+reference `.vec id` this is the same `id`: every such path produces an alias, never a copy of
+the cell (cf. `cells_only_from_allocators`). -/
+theorem alias_transport (σ : Store) (v w : Value) :
+    (∀ ρ x, ρ < σ.frames.size → (σ.define ρ x v).lookup ρ x = some v) ∧
+    Prim.applyPure σ .cons [v, w] = (.ok (.pair v w), σ) ∧
+    Prim.applyPure σ .car [.pair v w] = (.ok v, σ) ∧
+    Prim.applyPure σ .cdr [.pair v w] = (.ok w, σ) ∧
+    (∀ (items : List Value) (n : Nat), items[n]? = some v →
+      Prim.applyPure (σ.allocVec true items).2 .vectorRef [(σ.allocVec true items).1, .num (.int n)] =
+        (.ok v, (σ.allocVec true items).2)) := by
+  refine ⟨fun ρ x hρ => ?_, rfl, rfl, rfl, fun items n hn => ?_⟩
+  · have h := (Store.lookup_after_define σ x v hρ ρ x).1
+    apply h
+    refine ⟨rfl, ?_⟩
+    rw [Store.resolve_define, Store.chain, Store.chainAux]
+    simp [hρ]
+  · have hc : (σ.allocVec true items).2.vecs[σ.vecs.size]? = some { mutable := true, items := items } := by
+      simp
+    rw [Store.allocVec_fst, Prim.vectorRef_outcome hc]
+    simp [hn]
+
+example : Prim.applyPure Store.demo .car [.pair (.vec 0) .nil] = (.ok (.vec 0), Store.demo) ∧
+    (Store.demo.define 3 "w" (.vec 0)).lookup 3 "w" = some (.vec 0) := ⟨rfl, rfl⟩
 
 /-- Fresh identity: `allocVec`, `(vector …)` and `(make-vector k fill)` return a reference to a
 cell id that was not allocated before; all existing cells are unchanged. -/
